@@ -26,6 +26,10 @@ func H01_shape() {
 			{name: "f", terms: []string{"", "a"}, tv: true, maxLocs: 1, multi: true},
 			{name: "g", terms: []string{"é", "b"}, dv: true},
 		}}
+	if vParam("lite", 0) == 1 {
+		cfg.fields[0].terms = []string{""}
+		cfg.fields[1].terms = []string{"é"}
+	}
 	docs, sp := vGenBatch(cfg)
 	var z ZapPlugin
 	seg, _, err := z.newWithChunkMode(docs, vChunkMode())
@@ -35,8 +39,9 @@ func H01_shape() {
 
 // H01_width: a fixed rich shape; one number (chosen symbolically) is full width.
 func H01_width() {
-	nNumbers := 12
-	cfg := gCfg{prefix: "", idBase: "d", nDocs: 2, wide: vChoice("wide", nNumbers), freqZero: true, maxAP: 1,
+	nDocs := vParam("widthDocs", 2)
+	nNumbers := 6 * nDocs
+	cfg := gCfg{prefix: "", idBase: "d", nDocs: nDocs, wide: vChoice("wide", nNumbers), freqZero: true, maxAP: 1,
 		fields: []gField{
 			{name: "f", terms: []string{"a"}, tv: true, maxLocs: 1, always: true, allTerm: true},
 			{name: "g", terms: []string{"b"}, always: true, allTerm: true},
